@@ -145,3 +145,15 @@ Section K.
   Lemma K_call_tdm_psi x : call_tdm_psi N x = x.
   Proof. reflexivity. Qed.
 End K.
+
+(* ------------------------------------------------ statement skeletons (fail-closed pins of the translator) *)
+Lemma K_sh_angular_separation : sh_angular_separation = true. Proof. reflexivity. Qed.
+Lemma K_sh_rotate_spherical_vector : sh_rotate_spherical_vector = true. Proof. reflexivity. Qed.
+Lemma K_sh_rotate_signal_events_on_sphere : sh_rotate_signal_events_on_sphere = true. Proof. reflexivity. Qed.
+Lemma K_sh_azi_to_ra_transform : sh_azi_to_ra_transform = true. Proof. reflexivity. Qed.
+Lemma K_sh_ra_to_azi_transform : sh_ra_to_azi_transform = true. Proof. reflexivity. Qed.
+Lemma K_sh_hor_to_equ_transform : sh_hor_to_equ_transform = true. Proof. reflexivity. Qed.
+Lemma K_sh_psi_to_dec_and_ra : sh_psi_to_dec_and_ra = true. Proof. reflexivity. Qed.
+Lemma K_sh_tdm_field_func_psi : sh_tdm_field_func_psi = true. Proof. reflexivity. Qed.
+Lemma K_sh_get_tdm_field_func_psi : sh_get_tdm_field_func_psi = true. Proof. reflexivity. Qed.
+Lemma K_sh_signalpdf_calculate_pd : sh_signalpdf_calculate_pd = true. Proof. reflexivity. Qed.
